@@ -20,7 +20,9 @@ TARGETS = ['selfies/grammar_rules.py::next_atom_state',
            'selfies/mol_graph.py::MolecularGraph.add_ring_bond',
            'selfies/mol_graph.py::MolecularGraph.update_bond_order',
            'selfies/utils/smiles_utils.py::bond_to_smiles',
-           'selfies/bond_constraints.py::get_bonding_capacity']
+           'selfies/bond_constraints.py::get_bonding_capacity',
+           'selfies/decoder.py::_form_rings_bilocally',
+           'selfies/mol_graph.py::Atom.bonding_capacity']
 EXPLANATION = (
     "Mixed. PROVED (deductive, all inputs and all tables - the capacity is a symbolic integer): the clip clauses of "
     "the state functions (bond order <= requested, <= state, <= capacity of the new atom; branch split "
